@@ -1,6 +1,6 @@
 SPECIFICATION Spec
 CONSTANTS
-  MaxStmts = 4
+  MaxStmts = 3
   MaxDepth = 3
   MaxUnits = 1
   MaxVar = 1
@@ -15,10 +15,10 @@ CONSTANTS
   TbindV <- Set1
   NameChoices <- Set01
   EndForms <- Set02
-  LabelStmts = FALSE
+  LabelStmts = TRUE
   Contains = TRUE
   PKinds <- KSent
-  MaxEdits = 3
+  MaxEdits = 2
   InsSet <- InsSmall
   MinEdits = 0
   Randomised = FALSE
